@@ -165,8 +165,17 @@ def run(ctx, R, tier):
 
     frame_source(F, R)
     # read_commands siblings
-    ra = F.body(ST + '::read_commands')
-    rb = F.body(SS + '::read_commands')
+    def reader_fn(owner):
+        ob_ = F.body('<%s as sound::Sound>::on_start_processing' % owner)
+        if ob_ is None:
+            return None
+        for bb, t in ob_.calls():
+            cb = F.body(callee_path(t) or '')
+            if cb is not None and cb.krate == 'kira' and any((callee_path(tt) or '') == 'command::CommandReader::<T>::read' for _, tt in cb.calls()):
+                return cb
+        return None
+    ra = reader_fn(ST)
+    rb = reader_fn(SS)
     if R.check(ra is not None and rb is not None, 'B.C09.sib-cmd', 'anchor', 'read_commands siblings not found'):
         def seq(b):
             from .c07 import origin_pl, last_field
@@ -190,7 +199,11 @@ def run(ctx, R, tier):
         ob_ = F.body('<%s as sound::Sound>::on_start_processing' % owner)
         if R.check(ob_ is not None, 'B.C09.sib-on-start', 'anchor:' + tag, 'on_start_processing not found'):
             st = [bb for bb, t in ob_.calls() if (callee_path(t) or '').endswith('::store') and 'position' in describe(ob_, t['args'][0])]
-            rc = [bb for bb, t in ob_.calls() if (callee_path(t) or '').endswith('::read_commands')]
+            rc = []
+            for bb, t in ob_.calls():
+                cb = F.body(callee_path(t) or '')
+                if cb is not None and cb.krate == 'kira' and any((callee_path(tt) or '') in ('command::CommandReader::<T>::read', 'parameter::Parameter::<T>::read_command') for _, tt in cb.calls()):
+                    rc.append(bb)
             R.check(len(st) == 1 and len(rc) == 1 and order_ok(ob_, st, rc), 'B.C09.sib-on-start', tag,
                     '%s::on_start_processing does not publish the position before reading commands' % owner, detail='position.store ≺ read_commands')
 
